@@ -106,6 +106,19 @@ func ClientJWTAuth(ctx context.Context, ca oidc.ClientAssertionParams, verifier 
 	return profile.Issuer, nil
 }
 
+// checkPrivateKeyJWTClient makes sure that a client which presented a JWT assertion
+// is registered for that authentication method.
+func checkPrivateKeyJWTClient(ctx context.Context, clientID string, storage Storage) error {
+	client, err := storage.GetClientByClientID(ctx, clientID)
+	if err != nil {
+		return oidc.ErrInvalidClient().WithParent(err)
+	}
+	if client.AuthMethod() != oidc.AuthMethodPrivateKeyJWT {
+		return oidc.ErrInvalidClient().WithDescription("private_key_jwt not allowed for this client")
+	}
+	return nil
+}
+
 func ClientBasicAuth(r *http.Request, storage Storage) (clientID string, err error) {
 	ctx, span := tracer.Start(r.Context(), "ClientBasicAuth")
 	r = r.WithContext(ctx)
@@ -172,7 +185,13 @@ func ClientIDFromRequest(r *http.Request, p ClientProvider) (clientID string, au
 		// if JWTProfile is supported and client sent an assertion, check it and use it as response
 		// regardless if it succeeded or failed
 		clientID, err = ClientJWTAuth(r.Context(), data.ClientAssertionParams, JWTProfile)
-		return clientID, err == nil, err
+		if err != nil {
+			return "", false, err
+		}
+		if err = checkPrivateKeyJWTClient(r.Context(), clientID, p.Storage()); err != nil {
+			return "", false, err
+		}
+		return clientID, true, nil
 	}
 	// try basic auth
 	clientID, err = ClientBasicAuth(r, p.Storage())
